@@ -96,6 +96,27 @@ CLAIMED["C05"] = dict(
          "in the source); the trigger back-ends are represented by a counter (trace trigger composed with the real EventImpl); time-outs are not modelled.",
     technique="Lean 4 proof (wake-up invariant over an interleaving semantics + machine-checked counterexample) + atomic-step trace correspondence",
     design="DESIGN.md §5 C05")
+CLAIMED["C14"] = dict(
+    level="proof",
+    text="Lean 4: (1) the field table of every structure iceoryx2 places in shared memory is regenerated from /repo on every run by a translator; a theorem decided over the whole "
+         "table states that no field of any of them, transitively, is a raw pointer, reference, owning pointer or heap container — pointers are self-relative; (2) theorems on the "
+         "self-relative pointer arithmetic for every pair of mapping addresses (unbounded integers and wrapping 64-bit words): init in one mapping, resolve in another = image of the "
+         "target; contrast theorem for absolute pointers. (3) The container / lock-free models are address-free; relocation runs (byte-wise block moves, per-thread alias mappings) "
+         "compare the real structures against them.",
+    note="Trusted: Lean kernel + axioms propext/Quot.sound; the translator's parser (fails closed); whitelisted: the pool allocator's base address kept as a number. Behaviour under relocation "
+         "is established by differential/metamorphic runs (testing), the theorem part covers the layout table and the pointer arithmetic.",
+    technique="Lean 4 proof over a table translated from the source on every run (decide) + pointer-arithmetic theorems + relocation correspondence runs",
+    design="DESIGN.md §5 C14")
+CLAIMED["C10"] = dict(
+    level="proof",
+    text="Lean 4 theorems over a small-step interleaving model of mpmc::Container (add: acquire slot, write words, bump generation to odd, bump change counter; remove: bump generation to even, "
+         "release slot, bump change counter; update_state: change-counter check, per-slot generation/word copy/generation validation; recovery of dead owners through the robust index set) "
+         "for ANY number of threads, programs and EVERY schedule: every entry of a snapshot was really added with exactly those words (no tearing, no phantom); no entry whose removal "
+         "completed before the refresh began; a refresh that runs while nothing changes reports exactly the registered set and the next one reports nothing changed; every completed "
+         "add/remove is noticed by the next refresh; the change counter is monotone. Tied to /repo by atomic-step traces.",
+    note="Trusted: Lean kernel + 3 standard axioms; hand-written L2 model (tie = trace comparison under a serialising scheduler: SC interleavings only); deaths happen between operations only.",
+    technique="Lean 4 proof (abstract phase machine + refinement + one inductive invariant over an interleaving semantics) + atomic-step trace correspondence",
+    design="DESIGN.md §5 C10")
 NOT_YET = {}
 
 def main():
@@ -110,7 +131,7 @@ def main():
                 thorough_cmd=f"./check {pid} --tier thorough",
                 evidence_file=f"/verif/evidence/{pid}.json",
                 replay_cmd_template=f"./check {pid} --replay {{path}}",
-                engine="lean+steptrace" if pid in ("C03","C05","C09","C10","C12","C13") else "lean+seqdiff",
+                engine="lean+steptrace" if pid in ("C03","C05","C09","C10","C12","C13","C14") else "lean+seqdiff",
                 level_claimed=dict(category=c["level"], text=c["text"], design_ref=c["design"]),
                 level_note=c["note"],
                 technique=c["technique"]))
